@@ -129,6 +129,8 @@ fn run_bdd(seed: u64, budget: usize) -> ! {
             if h.value() < 2 { continue; }
             for goal in [true, false] { for gv in 0..NV {
                 let cubes = bdd.interpretations(*h, goal, Var(gv), &[], &[]);
+                // no path cube contradicts the goal at the goal variable (clause glit_ok of the cube contract, used by C04's each-once proof)
+                if cubes.iter().any(|c| if goal { c.0.contains(&Var(gv)) } else { c.1.contains(&Var(gv)) }) { record(format!("C13: interpretations({:?},{},{}) returns a cube that sets the goal variable against the goal; history: {}", h, goal, gv, log.join("; "))); continue 'round; }
                 let sat = |c: &(Vec<Var>, Vec<Var>), a: usize| c.0.iter().all(|v| (a >> v.value()) & 1 == 0) && c.1.iter().all(|v| (a >> v.value()) & 1 == 1);
                 for a in 0..(1usize << NV) {
                     let n_sat = cubes.iter().filter(|c| sat(c, a)).count();
@@ -301,7 +303,9 @@ fn run_c04(seed: u64, budget: usize) -> ! {
     for round in 0..budget {
         if n_found() >= 1 { break; }
         let n = 2 + rng.below(5);
-        let fs: Vec<F> = (0..n).map(|_| gen_f(&mut rng, n, 1 + (round % 3))).collect();
+        let mut fs: Vec<F> = (0..n).map(|_| gen_f(&mut rng, n, 1 + (round % 3))).collect();
+        // every third round: conditions that share sub-formulas with other statements' conditions (shared sub-diagrams in the store)
+        if round % 3 == 2 { for i in 1..n { if rng.below(2) == 0 { let j = rng.below(i); let other = Box::new(fs[j].clone()); let at = Box::new(F::Atom(rng.below(n))); fs[i] = match rng.below(3) { 0 => F::Or(at, other), 1 => F::And(at, other), _ => F::Or(other, at) }; } } }
         let mut text = String::new();
         for i in 0..n { text.push_str(&format!("s({}).", name(i))); }
         for i in 0..n { text.push_str(&format!("ac({},{}).", name(i), show(&fs[i]))); }
@@ -313,6 +317,22 @@ fn run_c04(seed: u64, budget: usize) -> ! {
             let got: Vec<V3> = if which == "a" { adf.stable_count_optimisation_heu_a().map(|v| tvs(&v)).collect() } else { adf.stable_count_optimisation_heu_b().map(|v| tvs(&v)).collect() };
             if sorted(got.clone()) != stable || got.len() != stable.len() {
                 record(format!("C04 stable_count_optimisation_heu_{} on ADF `{}`: got {:?} expected {:?}", which, text, got, stable));
+            }
+        }
+        // the same procedures on ONE ADF value, in a random call history (warm memo / count tables, C11): every answer is again
+        // exactly the set of stable models
+        {
+            let mut adf = Adf::from_parser(&parser);
+            let len = 2 + rng.below(2);
+            let mut hist = String::new();
+            for _ in 0..len {
+                let which = ["a", "b", "s"][rng.below(3)];
+                hist.push_str(which);
+                let got: Vec<V3> = match which { "a" => adf.stable_count_optimisation_heu_a().map(|v| tvs(&v)).collect(), "b" => adf.stable_count_optimisation_heu_b().map(|v| tvs(&v)).collect(), _ => adf.stable().map(|v| tvs(&v)).collect() };
+                if which != "s" && (sorted(got.clone()) != stable || got.len() != stable.len()) {
+                    record(format!("C04 call history `{}` (a/b = counting-guided searches, s = plain stable) on one ADF `{}`: the last call returned {:?} expected {:?}", hist, text, got, stable));
+                    break;
+                }
             }
         }
         checked += 1;
